@@ -80,9 +80,12 @@ def limit(self: Stairs, x, side, include_index=False) -> pd.Series:
     passed_x = x
     if self._data is None:
         if pd.api.types.is_list_like(x):
-            return self.initial_value * np.ones_like(x, dtype=float)
+            values = self.initial_value * np.ones_like(x, dtype=float)
         else:
-            return self.initial_value
+            values = self.initial_value
+        if include_index:
+            values = pd.Series(values, index=passed_x)
+        return values
     amended_values = np.append(
         self._get_values().values, [self.initial_value]
     )  # hack for -1 index value
